@@ -428,14 +428,20 @@ impl StaticMetadata {
 
         for ni in named_instances.iter() {
             let instance_name = ni.name.as_str();
+            // Like fonttools' findMultilingualName, look at the *smallest* existing nameID
+            // with this string; `names` is a HashMap, so taking whichever match comes first
+            // would make the outcome depend on hash iteration order.
+            // https://github.com/fonttools/fonttools/blob/0bc8c028f/Lib/fontTools/varLib/__init__.py#L139-L150
+            let smallest_existing_name_id = names
+                .iter()
+                .filter(|(_, string)| *string == instance_name)
+                .map(|(key, _)| key.name_id)
+                .min();
             if ni.location == default_instance_location
-                && names
-                    .iter()
-                    .find_map(|(key, string)| (*string == instance_name).then_some(key.name_id))
-                    .is_some_and(|name_id| {
-                        name_id == NameId::SUBFAMILY_NAME
-                            || name_id == NameId::TYPOGRAPHIC_SUBFAMILY_NAME
-                    })
+                && smallest_existing_name_id.is_some_and(|name_id| {
+                    name_id == NameId::SUBFAMILY_NAME
+                        || name_id == NameId::TYPOGRAPHIC_SUBFAMILY_NAME
+                })
             {
                 log::debug!(
                     "Reuse existing subfamily name '{instance_name}' for default instance at {default_instance_location:?}",
